@@ -319,7 +319,7 @@ def value_order_arms(ctx):
                     fam.candidates.append(Candidate(fam.name, f'order:{na}:{nb}', f'JsonValue::cmp({na}, {nb}): {why}', {'a': na, 'b': nb}, unmodelled=hav))
     run.absorb(ex)
     from .cli import run_jawk, show
-    SAMPLE = {'Null': ['null'], 'Boolean': ['false', 'true'], 'String': ['"a"', '"b"', '"ab"'], 'Number': ['1', '2', '-1', '1.5'], 'Object': ['{}', '{"a":1}'], 'Array': ['[2]', '[1,5]', '[1]', '[]', '[1,0,0]']}
+    SAMPLE = {'Null': ['null'], 'Boolean': ['false', 'true'], 'String': ['"a"', '"b"', '"ab"', '"\U0001F600"', '"\uff21"', '"\ue000x"', '"\u00e9"', '"Z"', '""'], 'Number': ['1', '2', '-1', '1.5'], 'Object': ['{}', '{"a":1}'], 'Array': ['[2]', '[1,5]', '[1]', '[]', '[1,0,0]']}
     import functools
     def pyrank(v):
         return 0 if v is None else 1 if isinstance(v, bool) else 2 if isinstance(v, str) else 3 if isinstance(v, (int, float)) else 4 if isinstance(v, dict) else 5
@@ -336,7 +336,7 @@ def value_order_arms(ctx):
     for c in fam.candidates:
         vals = sorted(set(SAMPLE[c.model['a']] + SAMPLE[c.model['b']]))
         arr = [json.loads(v) for v in vals]
-        r = run_jawk(ctx, ['--select', '(sort .)=r', '--style', 'consise'], json.dumps(arr).encode())
+        r = run_jawk(ctx, ['--select', '(sort .)=r', '--style', 'consise', '--utf8-strings'], json.dumps(arr, ensure_ascii=False).encode())
         try: got = json.loads(show(r['stdout']))['r']
         except Exception: got = show(r['stdout'])
         exp = sorted(arr, key=functools.cmp_to_key(pycmp))
